@@ -38,6 +38,7 @@ pub const MONITORS: &[(&str, &str)] = &[
     ("c11-real", "C11"),
     ("c11-huge-slice", "C11"),
     ("c12-stream", "C12"),
+    ("c12-pipe", "C12"),
     ("c13-compare", "C13"),
     ("c14-buffers", "C14"),
     ("c15-gates", "C15"),
@@ -81,6 +82,7 @@ pub fn run(monitor: &str, ctx: &Ctx) -> Option<Report> {
         "c11-real" => c11::run_real(ctx, &mut rep),
         "c11-huge-slice" => c11::run_huge_slice(ctx, &mut rep),
         "c12-stream" => c12::run_stream(ctx, &mut rep),
+        "c12-pipe" => c12::run_pipe(ctx, &mut rep),
         "c13-compare" => c12::run_compare(ctx, &mut rep),
         "c14-buffers" => codec::run_c14(ctx, &mut rep),
         "c15-gates" => codec::run_c15_gates(ctx, &mut rep),
@@ -115,7 +117,7 @@ pub fn replay(monitor: &str, case: &Json, ctx: &Ctx, rep: &mut Report) -> bool {
         "c09-length" => c09::replay(case, rep),
         "c10-lattice" => c10::replay(case, rep),
         m if m.starts_with("c11-") => c11::replay(case, ctx, rep),
-        "c12-stream" | "c13-compare" => c12::replay(case, ctx, rep),
+        "c12-stream" | "c12-pipe" | "c13-compare" => c12::replay(case, ctx, rep),
         #[cfg(feature = "serde")]
         "c16-formats" | "c16-mock" => c16::replay(case, rep),
         "c07-transcript" | "c07-firstcall" => c07::replay(case, ctx, rep),
